@@ -489,6 +489,16 @@ func inRuntimeNano(ex *Exec, fn *ssa.Function, args []Value) (Value, bool) {
 	return ex.tc.Const(BV(64), uint64(1000000000+ex.clockTick())), true
 }
 
+// header-struct casts between string and []byte (gjson): replaced by the equivalent copy
+func inStringBytes(ex *Exec, fn *ssa.Function, args []Value) (Value, bool) {
+	ex.stubsSeen["gjson.stringBytes/bytesString (unsafe header casts) replaced by copies"] = true
+	return ex.bytesToSlice(args[0].(*StrV).b, nil), true
+}
+func inBytesString(ex *Exec, fn *ssa.Function, args []Value) (Value, bool) {
+	ex.stubsSeen["gjson.stringBytes/bytesString (unsafe header casts) replaced by copies"] = true
+	return &StrV{b: ex.sliceBytes(args[0].(SliceV))}, true
+}
+
 func inIdentity(ex *Exec, fn *ssa.Function, args []Value) (Value, bool) { return args[0], true }
 
 func inNoop(ex *Exec, fn *ssa.Function, args []Value) (Value, bool) {
@@ -773,6 +783,8 @@ var intrinsicTable = map[string]intrinsicFn{
 	"time.now":                           inRuntimeNow,
 	"time.runtimeNano":                   inRuntimeNano,
 	"time.Sleep":                         inNoop,
+	"github.com/tidwall/gjson.stringBytes": inStringBytes,
+	"github.com/tidwall/gjson.bytesString": inBytesString,
 	"internal/abi.NoEscape":              inIdentity,
 	"internal/bytealg.MakeNoZero":        inMakeNoZero,
 	"(*strings.Builder).copyCheck":       inNoop,
